@@ -149,6 +149,13 @@ CHECKS = {
         "text": "Debouncer: event/stop sequences with gaps of I/2, I-eps, I, I+eps, 2I: every event exactly once, in order, batches never earlier than I after their last event, nothing after stop(), everything delivered at quiescence, thread exits. AutoRestartTrick over a process table whose children exit by themselves at generated times, die some time after SIGINT or need SIGKILL: never two children alive, no child alive or started after stop() returned, helper threads gone, exact restart counts for stimuli >= 2 s apart. ShellCommandTrick: no overlapping commands under wait_for_process/drop_during_process. Eight fixed programs get all schedules with <= 1/2 preemptions at line granularity; random programs get random schedules.",
         "note": "Trusted: vlib/dsched, vlib/simproc.py (process exits are points on the virtual clock; SIGKILL is immediate). Events are fed serially through dispatch().",
     },
+    "C20": {
+        "engine": "pure",
+        "design_ref": "DESIGN.md §3.3, §4 C20",
+        "technique": "property-based testing: encoder-driven round trips of the two binary buffer formats (Hypothesis), and generated histories executed on a scratch tree, rendered into native notification batches by documented-semantics simulators and fed synchronously to the real Windows / FSEvents emitters; replay, rename, boundary and scope oracles",
+        "text": "(A) FILE_NOTIFY_INFORMATION and inotify_event buffers encoded by encoders written here (1-40 records, names 0-255 units incl. byte-order-mark characters, every padding) must decode to exactly the records encoded. (W/F) C01-style histories (every history of length <= 2 of a small universe + random ones) run on a real scratch directory; renderers turn each op into ReadDirectoryChangesW actions / FSEvents items (with inode, flags, optional per-item coalescing and arbitrary batch cuts); the real WindowsApiEmitter / FSEventsEmitter, imported through shims, translate them; replaying the result must reproduce the tree, a rename delivered in one batch must be one moved event plus one synthetic per descendant, boundary moves must be created/deleted, a non-recursive FSEvents watch must report nothing out of scope.",
+        "note": "Trusted base: the two renderers (written from platform documentation; only behaviour the documentation clearly allows is generated) and vlib/shims.py. Four known findings are excluded by construction and re-checked by their exact reproducers on every run (known_findings.json).",
+    },
 }
 
 ALL = [f"C{i:02d}" for i in range(1, 21)]
